@@ -173,7 +173,10 @@ _start_lock = threading.Lock()
 
 
 def conf_text(cfg):
-    extra = "".join("cachemgr_passwd %s %s\n" % (p, " ".join(a)) for p, a in cfg["pw"])
+    # ftp:// targets are never internal (6b03ef7): they go to the ftp gateway; `never_direct` makes that end at once in
+    # 503 ERR_CANNOT_FORWARD (no peer) instead of a DNS lookup / FTP dialogue with the lab's HTTP stubs
+    extra = "acl verif_ftp proto FTP\nnever_direct allow verif_ftp\n"
+    extra += "".join("cachemgr_passwd %s %s\n" % (p, " ".join(a)) for p, a in cfg["pw"])
     access = "\n".join("http_access %s %s" % ("allow" if r[0] == "+" else "deny", " ".join(ATOM_TXT[c] for c in r[1:]))
                        for r in cfg["rules"])
     return extra, access
@@ -224,6 +227,8 @@ def observe(r, forwarded):
         return "badreq"
     if err == "ERR_UNSUP_REQ" and r.status == 501:
         return "unsupported"
+    if err == "ERR_CANNOT_FORWARD" and r.status == 503:
+        return "forwarded"        # passed http_access and was handed to forwarding (which the lab config ends: see conf_text)
     if err == "MGR_INDEX":
         return "index"
     if err == "ERR_CACHE_MGR_ACCESS_DENIED" and r.status == 401:
